@@ -586,3 +586,81 @@ Definition unmsgpack (b : list Z) : outcome :=
 End Msgpack.
 
 End Codec.
+
+(* ---------------------------------------------------------------- values change in place *)
+(* What hset / hdel on a hash and aset on an array (at any depth of a value) mean for the data:
+   the specification of the object an encoder is handed AFTER changes (hashutils.go HashSet: an
+   existing key keeps its place and gets the new value, a new key is appended; HashDelete: the
+   key leaves the order; ArrayAccessFunction aset: the element is replaced). *)
+
+Inductive pstep := PKey (k : key) | PIdx (i : nat).
+Inductive mop :=
+| MSet (p : list pstep) (k : key) (x : value)
+| MDel (p : list pstep) (k : key)
+| MASet (p : list pstep) (i : nat) (x : value).
+
+(* a symbol key and a string key of the same text are different keys *)
+Definition key_eqb (a b : key) : bool :=
+  match a, b with
+  | KSym s, KSym t => str_eqb s t
+  | KStr s, KStr t => str_eqb s t
+  | _, _ => false
+  end.
+
+Fixpoint fields_set (fs : list (key * value)) (k : key) (x : value) : list (key * value) :=
+  match fs with
+  | [] => [(k, x)]
+  | (k', x') :: r => if key_eqb k k' then (k', x) :: r else (k', x') :: fields_set r k x
+  end.
+
+Fixpoint fields_del (fs : list (key * value)) (k : key) : list (key * value) :=
+  match fs with
+  | [] => []
+  | (k', x') :: r => if key_eqb k k' then r else (k', x') :: fields_del r k
+  end.
+
+Fixpoint fields_update (fs : list (key * value)) (k : key) (g : value -> option value)
+  : option (list (key * value)) :=
+  match fs with
+  | [] => None
+  | (k', x') :: r =>
+      if key_eqb k k' then match g x' with Some y => Some ((k', y) :: r) | None => None end
+      else match fields_update r k g with Some r' => Some ((k', x') :: r') | None => None end
+  end.
+
+Fixpoint list_update (l : list value) (i : nat) (g : value -> option value) : option (list value) :=
+  match l, i with
+  | [], _ => None
+  | a :: r, O => match g a with Some b => Some (b :: r) | None => None end
+  | a :: r, S j => match list_update r j g with Some r' => Some (a :: r') | None => None end
+  end.
+
+Fixpoint update_at (p : list pstep) (f : value -> option value) (v : value) : option value :=
+  match p with
+  | [] => f v
+  | PKey k :: p' =>
+      match v with
+      | VHash tn fs => match fields_update fs k (update_at p' f) with
+                       | Some fs' => Some (VHash tn fs') | None => None end
+      | _ => None
+      end
+  | PIdx i :: p' =>
+      match v with
+      | VArr l => match list_update l i (update_at p' f) with
+                  | Some l' => Some (VArr l') | None => None end
+      | _ => None
+      end
+  end.
+
+Definition apply_op (o : mop) (v : value) : option value :=
+  match o with
+  | MSet p k x => update_at p (fun t => match t with VHash tn fs => Some (VHash tn (fields_set fs k x)) | _ => None end) v
+  | MDel p k => update_at p (fun t => match t with VHash tn fs => Some (VHash tn (fields_del fs k)) | _ => None end) v
+  | MASet p i x => update_at p (fun t => match t with
+                                         | VArr l => match list_update l i (fun _ => Some x) with
+                                                     | Some l' => Some (VArr l') | None => None end
+                                         | _ => None end) v
+  end.
+
+Definition run_ops (ops : list mop) (v : value) : option value :=
+  fold_left (fun acc o => match acc with Some t => apply_op o t | None => None end) ops (Some v).
